@@ -570,6 +570,162 @@ end GlueVerif.Stats
 
 namespace GlueVerif.Stats
 
+/-! ## Storage dtypes and the acceptance rule for a double-precision result (round 2)
+
+The specification is over the exact rational value of every *stored* element, whatever numeric dtype
+the component is stored in (`float16 … int64, uint8 …, bool`): a dtype only restricts which values
+can occur (`DType.holds`), it never enters the statistic.  The implementation answers with IEEE
+doubles; `specAccept` says which doubles are an acceptable answer for a cell whose kept values are
+`xs`: the exact value itself, a correctly rounded value where a single rounding separates the two,
+and otherwise a value within the forward error bound of a double-precision evaluation, computed
+exactly from the inputs (`n·2⁻⁵²·Σ|x|` for a sum of `n` values, …).  A single- or half-precision
+accumulation (error of order `2⁻²⁴·Σ|x|` resp. `2⁻¹¹·Σ|x|`) is far outside of it. -/
+
+inductive DType where
+  | f2 | f4 | f8 | i1 | i2 | i4 | i8 | u1 | u2 | u4 | u8 | b1
+  deriving Repr, DecidableEq
+
+def rabs (q : Rat) : Rat := if q < 0 then -q else q
+
+def isPow2 (d : Nat) : Bool := d != 0 && d == 2 ^ d.log2
+
+/-- Number of trailing zero bits of `n` (`0` for `0`). -/
+def trailingZeros (n : Nat) : Nat := go n n
+where
+  go : Nat → Nat → Nat
+    | 0, _ => 0
+    | fuel + 1, m => if m != 0 && m % 2 == 0 then go fuel (m / 2) + 1 else 0
+
+/-- `q` is a value of the binary floating-point format with `p` significand bits and exponent range
+`[emin, emax]` (subnormals included): `q = o·2^l` with `o` odd, `o < 2^p`, `l ≥ emin - p + 1` and
+`|q| < 2^(emax+1)`. -/
+def isBinFloat (p : Nat) (emin emax : Int) (q : Rat) : Bool :=
+  if q.num == 0 then true else
+  let n := q.num.natAbs
+  let tz := trailingZeros n
+  let o := n / 2 ^ tz
+  let l : Int := (tz : Int) - (q.den.log2 : Int)
+  isPow2 q.den && decide (o < 2 ^ p) && decide (emin - (p : Int) + 1 ≤ l) &&
+    decide (rabs q < (2 : Rat) ^ (emax + 1))
+
+def isIntIn (lo hi : Int) (q : Rat) : Bool := q.den == 1 && decide (lo ≤ q.num) && decide (q.num ≤ hi)
+
+/-- IEEE binary64. -/
+def isDouble (q : Rat) : Bool := isBinFloat 53 (-1022) 1023 q
+
+/-- The value can be stored in a component of this dtype (NaN and ±inf only in the float dtypes). -/
+def DType.holds : DType → Val → Bool
+  | .f2, .fin q => isBinFloat 11 (-14) 15 q
+  | .f4, .fin q => isBinFloat 24 (-126) 127 q
+  | .f8, .fin q => isDouble q
+  | .f2, _ => true
+  | .f4, _ => true
+  | .f8, _ => true
+  | .i1, .fin q => isIntIn (-128) 127 q
+  | .i2, .fin q => isIntIn (-32768) 32767 q
+  | .i4, .fin q => isIntIn (-2147483648) 2147483647 q
+  | .i8, .fin q => isIntIn (-9223372036854775808) 9223372036854775807 q
+  | .u1, .fin q => isIntIn 0 255 q
+  | .u2, .fin q => isIntIn 0 65535 q
+  | .u4, .fin q => isIntIn 0 4294967295 q
+  | .u8, .fin q => isIntIn 0 18446744073709551615 q
+  | .b1, .fin q => isIntIn 0 1 q
+  | _, _ => false
+
+/-- A stored element: its dtype tag and its exact value. -/
+structure Stored where
+  dt : DType
+  v : Val
+
+def finVals (xs : List Val) : List Rat := xs.filterMap fun v => match v with | .fin q => some q | _ => none
+
+/-- `Σ|x|` over the finite values. -/
+def absSum (xs : List Val) : Rat := ((finVals xs).map rabs).sum
+
+/-- `max|x|` over the finite values. -/
+def maxAbs (xs : List Val) : Rat := (finVals xs).foldl (fun m q => max m (rabs q)) 0
+
+/-- `2⁻⁵²` = twice the unit roundoff of binary64. -/
+def eps52 : Rat := 1 / 4503599627370496
+
+/-- Every partial sum of the values, in any order and association, is a double: all values are
+finite multiples of `2^-k` (`2^k ≤ 2^1022`) and `Σ|x|·2^k ≤ 2^53`.  A double-precision summation is
+then exact whatever its order (pairwise, chunked, …). -/
+def sumExact (xs : List Val) : Bool :=
+  let qs := finVals xs
+  let d : Nat := qs.foldl (fun d q => max d q.den) 1
+  qs.length == xs.length && qs.all (fun q => isPow2 q.den) && decide (d ≤ (2 : Nat) ^ 1022) &&
+    decide (absSum xs * (d : Rat) ≤ 9007199254740992)
+
+/-- One correctly rounded operation away from the exact value `e`: `e` itself when it is a double,
+otherwise within half an ulp (`≤ 2⁻⁵³·|e|`). -/
+def nearDouble (py e : Rat) : Bool :=
+  if isDouble e then py == e else decide (rabs (py - e) ≤ eps52 / 2 * rabs e)
+
+/-- Which finite double `py` is an acceptable value for a cell with kept values `xs` and exact
+statistic `e`.  The exact value always is.  Otherwise:
+* minimum, maximum, median of an odd number of values: a stored value — correctly rounded;
+* sum: exact when every partial sum is a double (`sumExact`), otherwise within `n·2⁻⁵²·Σ|x|`
+  (twice the first-order bound `(n-1)·u·Σ|x|` of recursive or pairwise summation, `u = 2⁻⁵³`, which
+  also covers rounding 64-bit integers to doubles first);
+* mean: one more division — correctly rounded when the sum is exact, else `(n+1)·2⁻⁵²·Σ|x|/n`;
+* median of an even number of values: the mean of the two middle values;
+* percentile: `a + (b-a)·g`, the virtual index `g` carrying a relative error of a few `n·u`:
+  within `(4n+8)·2⁻⁵²·max|x|`. -/
+def acceptFin (st : Stat) (xs : List Val) (py e : Rat) : Bool :=
+  py == e ||
+  let n : Rat := (xs.length : Nat)
+  match st with
+  | .minimum => nearDouble py e
+  | .maximum => nearDouble py e
+  | .sum =>
+    if sumExact xs then nearDouble py e else decide (rabs (py - e) ≤ n * eps52 * absSum xs)
+  | .mean =>
+    if sumExact xs then nearDouble py e
+    else decide (rabs (py - e) ≤ (n + 1) * eps52 * absSum xs / n)
+  | .median =>
+    let s := sortVals xs
+    let m := s.length
+    if m % 2 = 1 then nearDouble py e
+    else
+      let pair := [s.getD (m / 2 - 1) .nan, s.getD (m / 2) .nan]
+      if sumExact pair then nearDouble py e
+      else decide (rabs (py - e) ≤ 3 * eps52 * absSum pair / 2)
+  | .percentile _ => decide (rabs (py - e) ≤ (4 * n + 8) * eps52 * maxAbs xs)
+
+/-- **Spec, acceptance of a returned cell**: `py` (the exact value of the returned double, or
+NaN / ±inf) is an acceptable value of statistic `st` over the kept values `xs`.  NaN and ±inf must be
+met exactly. -/
+def specAccept (st : Stat) (xs : List Val) (py : Val) : Bool :=
+  match py, reduce st xs with
+  | .fin a, .fin e => acceptFin st xs a e
+  | a, e => decide (a = e)
+
+/-- The kept values of cell `k` of the specification (`specStat … .cell k` is the reducer applied
+to them — theorem `spec_cell_reduce`): what the tolerance of `specAccept` is computed from. -/
+def specCellVals (cfg : Cfg) (sh : List Nat) (data : Idx → Val) (sel : SelM) (vk : ViewKind)
+    (v : List VItem) (red : List Bool) (k : Idx) : List Val :=
+  match sel, vk with
+  | .slice vs, .none =>
+    if GlueVerif.ArrayUtil.prod (subShape vs) = 0 then []
+    else if inRange k (keptShape red (subShape vs)) then
+      cellVals red sh (keepFn cfg true data (fun j => inRange j sh && subMask vs j)) (mapKept red vs k)
+    else []
+  | _, _ =>
+    let vsh := viewShape' v
+    cellVals red vsh (keepFn cfg true (fun j => data (viewIdx v j))
+      (fun j => inRange j vsh && sel.maskFn (viewIdx v j))) k
+
+/-- The specification for a component given as stored elements (dtype tag + exact value): the dtype
+tags are dropped. -/
+def specStatStored (cfg : Cfg) (sh : List Nat) (sd : Idx → Stored) (sel : SelM) (vk : ViewKind)
+    (v : List VItem) (red : List Bool) : Result :=
+  specStat cfg sh (fun i => (sd i).v) sel vk v red
+
+def specCellValsStored (cfg : Cfg) (sh : List Nat) (sd : Idx → Stored) (sel : SelM) (vk : ViewKind)
+    (v : List VItem) (red : List Bool) (k : Idx) : List Val :=
+  specCellVals cfg sh (fun i => (sd i).v) sel vk v red k
+
 /-- Hypothesis of the per-bin theorem (linear bins), decidable: the range is non-degenerate, the nudge
 `eps` is small against the bin width, and every kept value is either the upper range end or lies at
 least `k·eps/n` above the lower edge of its textbook bin `k` (i.e. not on — or within the nudge
@@ -582,5 +738,51 @@ def clearOfEdges (lo hi eps : Rat) (n : Nat) (x : Rat) : Bool :=
 def histP (lo hi eps : Rat) (n : Nat) (kept : List (Rat × Rat)) : Bool :=
   decide (lo < hi) && decide (((n : Rat) - 1) * eps ≤ hi - lo) &&
     kept.all fun p => clearOfEdges lo hi eps n p.1
+
+/-! ## 2-d histograms (`Data.compute_histogram` with two attributes; round 2)
+
+Same per-axis treatment as the 1-d histogram: an element is kept when both coordinates are non-NaN and
+inside their closed (sorted) ranges; each axis has its own bin function (linear: fast_histogram with
+the 10-ulp padded upper end; log: textbook log bins).  Cells are listed row-major (`nx × ny`).
+Log ranges are strictly positive in the modelled domain. -/
+
+def hist2Keep (xlo xhi ylo yhi : Rat) (xs : List (Val × Val × Rat)) : List (Rat × Rat × Rat) :=
+  xs.filterMap fun p => match p.1, p.2.1 with
+    | .fin a, .fin b =>
+      if xlo ≤ a ∧ a ≤ xhi ∧ ylo ≤ b ∧ b ≤ yhi then some (a, b, p.2.2) else none
+    | _, _ => none
+
+def hist2Of (bx by' : Rat → Nat) (nx ny : Nat) (kept : List (Rat × Rat × Rat)) : List Rat :=
+  (List.range nx).flatMap fun i => (List.range ny).map fun j =>
+    ((kept.filter fun p => bx p.1 == i && by' p.2.1 == j).map (·.2.2)).sum
+
+def implBinAxis (lo hi : Rat) (n : Nat) (log : Bool) : Rat → Nat :=
+  if log then specBinLog lo hi n else implBinLin lo (hi + 10 * ulp hi) n
+
+def specBinAxis (lo hi : Rat) (n : Nat) (log : Bool) : Rat → Nat :=
+  if log then specBinLog lo hi n else specBinLin lo hi n
+
+def implHist2 (rx0 rx1 ry0 ry1 : Rat) (nx ny : Nat) (lx ly : Bool) (xs : List (Val × Val × Rat)) : List Rat :=
+  let xlo := min rx0 rx1; let xhi := max rx0 rx1
+  let ylo := min ry0 ry1; let yhi := max ry0 ry1
+  let kept := hist2Keep xlo xhi ylo yhi xs
+  if kept.isEmpty then List.replicate (nx * ny) 0
+  else hist2Of (implBinAxis xlo xhi nx lx) (implBinAxis ylo yhi ny ly) nx ny kept
+
+/-- **Spec**: textbook 2-d histogram over the closed ranges. -/
+def specHist2 (rx0 rx1 ry0 ry1 : Rat) (nx ny : Nat) (lx ly : Bool) (xs : List (Val × Val × Rat)) : List Rat :=
+  let xlo := min rx0 rx1; let xhi := max rx0 rx1
+  let ylo := min ry0 ry1; let yhi := max ry0 ry1
+  hist2Of (specBinAxis xlo xhi nx lx) (specBinAxis ylo yhi ny ly) nx ny (hist2Keep xlo xhi ylo yhi xs)
+
+/-- **Spec, total clause**: the cells add up to the weight of the selected elements inside both closed ranges. -/
+def specHist2Total (rx0 rx1 ry0 ry1 : Rat) (xs : List (Val × Val × Rat)) : Rat :=
+  ((hist2Keep (min rx0 rx1) (max rx0 rx1) (min ry0 ry1) (max ry0 ry1) xs).map (·.2.2)).sum
+
+/-- Per-axis clean-stratum condition (decidable): no kept coordinate on an interior edge in log space;
+`histP` (clear of the padded edges) for a linear axis. -/
+def axisClean (lo hi : Rat) (n : Nat) (log : Bool) (vals : List Rat) : Bool :=
+  if log then !(vals.any (onInteriorEdgeLog lo hi n))
+  else lo == hi || histP lo hi (10 * ulp hi) n (vals.map fun v => (v, 1))
 
 end GlueVerif.Stats
